@@ -85,7 +85,13 @@ func (f *CSVFormatter) prepareLine(line interface{}) map[string]interface{} {
 	if l.Kind() == reflect.Map {
 		m := map[string]interface{}{}
 		for _, name := range l.MapKeys() {
-			m[name.Interface().(string)] = l.MapIndex(name).Interface()
+			// Maps that are not keyed by strings use the printed key.
+			key, ok := name.Interface().(string)
+			if !ok {
+				key = fmt.Sprintf("%v", name.Interface())
+			}
+
+			m[key] = l.MapIndex(name).Interface()
 		}
 
 		return m
